@@ -150,6 +150,44 @@ def Prog.msgCompatBuiltin (P : Prog) (b : Nat) (c : Tag) : Bool :=
 /-- `Executor::canonical_tuple`: `canonical_tuples.get(id).copied().unwrap_or(id)`. -/
 def Prog.canonOf (P : Prog) (id : Nat) : Nat := (P.canon[id]?).getD id
 
+/-- `Type::is_never` of a table entry. -/
+def Prog.isNeverTy (P : Prog) (t : Nat) : Bool :=
+  match P.types[t]? with
+  | some (.union []) => true
+  | _ => false
+
+/-- Does the tag's *tag type* have an entry in the type table — i.e. does `TypeIndex::build`
+    (compatibility.rs) find a type id for it? A tag without one is never a member of any compatibility
+    row of this program (`compute_compatible_concrete_types` skips it), so what `IsType` answers for
+    such a value is an artefact of the table, not of the value: the value lies outside the program's
+    type universe. Functions are always resolvable (through their own `type_id`). For the three
+    primitives `TypeIndex` keeps `Option<usize>`; without an entry the code falls back to a direct
+    pattern match (`Integer` or `never` only), which differs from `is_compatible` for variable /
+    union patterns — so a primitive without an entry is treated as absent too. -/
+def Prog.tagPresent (P : Prog) : Tag → Bool
+  | .int => P.types.toList.any (· == Ty.int)
+  | .bin => P.types.toList.any (· == Ty.bin)
+  | .ref => P.types.toList.any (· == Ty.ref)
+  | .fn _ => true
+  | .tuple t => P.types.toList.any (· == Ty.tuple t)
+  | .builtin b =>
+    match P.builtins[b]? with
+    | some B => P.types.toList.any (fun τ => match τ with
+        | .callable p r v => p == B.paramType && r == B.resultType && P.isNeverTy v
+        | _ => false)
+    | none => false
+  | .proc f =>
+    match P.fns[f]? with
+    | some F =>
+      match P.types[F.typeId]? with
+      | some (.callable _ r v) => P.types.toList.any (· == Ty.process (some v) (some r))
+      | _ => P.types.toList.any (· == Ty.process none none)
+    | none => false
+  | .res r =>
+    match P.resources[r]? with
+    | some n => P.types.toList.any (· == Ty.resource n)
+    | none => false
+
 /-! ## Renamings -/
 
 /-- Finite partial map on indices (association list; first match wins). -/
@@ -257,14 +295,20 @@ structure IsRenaming (ρ : Ren) (P P' : Prog) (e e' : Nat) : Prop where
   resources : ∀ r r', ρ.resource.get r = some r' →
     ∃ n, P.resources[r]? = some n ∧ P'.resources[r']? = some n
   /-- what `IsType` answers: the two compatibility tables agree through ρ on every pattern type a
-      reachable function tests against and every tag a reachable value can carry -/
+      reachable function tests against and every tag a reachable value can carry **whose tag type
+      has an entry in `P`'s type table** (`tagPresent`). For a tag without an entry `P` answers
+      "no" whatever the pattern; a packaging that adds the entry (merging behind a program that
+      has it) may answer "yes". Such a value is outside `P`'s type universe — the compiler registers
+      the static type of every scrutinee, so it never reaches the test; the execution theorem
+      carries that as the hypothesis `IsTypeSafe` (see `Theorems/C10.lean` and notes/C10.md). -/
   compat : ∀ f f' F, ρ.fn.get f = some f' → P.fns[f]? = some F → ∀ t, t ∈ isTypeOps F.instrs →
-    ∀ t', ρ.type.get t = some t' → ∀ c c', renameTag ρ c = some c' → P.isCompat t c = P'.isCompat t' c'
+    ∀ t', ρ.type.get t = some t' → ∀ c c', renameTag ρ c = some c' → P.tagPresent c = true →
+      P.isCompat t c = P'.isCompat t' c'
   /-- what a select's mailbox scan consults (`check_message_compatible`): which messages a receive
       function / builtin accepts — F13 lives here for typed receives of process values -/
-  fparam : ∀ f f', ρ.fn.get f = some f' → ∀ c c', renameTag ρ c = some c' →
+  fparam : ∀ f f', ρ.fn.get f = some f' → ∀ c c', renameTag ρ c = some c' → P.tagPresent c = true →
     P.msgCompatFn f c = P'.msgCompatFn f' c'
-  bparam : ∀ b b', ρ.builtin.get b = some b' → ∀ c c', renameTag ρ c = some c' →
+  bparam : ∀ b b', ρ.builtin.get b = some b' → ∀ c c', renameTag ρ c = some c' → P.tagPresent c = true →
     P.msgCompatBuiltin b c = P'.msgCompatBuiltin b' c'
   /-- what `Equal` consults: tuple ids are compared through `canonical_tuples` -/
   canon : ∀ a a' b b', ρ.tuple.get a = some a' → ρ.tuple.get b = some b' →
@@ -324,6 +368,9 @@ def tagPairs (ρ : Ren) : List (Tag × Tag) :=
   ρ.fn.map (fun p => (Tag.proc p.1, Tag.proc p.2)) ++
   ρ.resource.map (fun p => (Tag.res p.1, Tag.res p.2))
 
+/-- …restricted to the tags whose tag type has an entry in `P`. -/
+def presentPairs (ρ : Ren) (P : Prog) : List (Tag × Tag) := (tagPairs ρ).filter (fun cc => P.tagPresent cc.1)
+
 /-- One pattern type: the rows agree on every tag pair. -/
 def compatRowOK (P P' : Prog) (tags : List (Tag × Tag)) (t t' : Nat) : Bool :=
   tags.all (fun cc => P.isCompat t cc.1 == P'.isCompat t' cc.2)
@@ -364,9 +411,9 @@ def checks (ρ : Ren) (P P' : Prog) (e e' : Nat) : List (String × Bool) :=
     ("builtins", ρ.builtin.all (builtinOK ρ P P')),
     ("types", ρ.type.all (typeOK ρ P P')),
     ("resources", ρ.resource.all (resourceOK P P')),
-    ("compat", ρ.fn.all (compatFnOK ρ P P' (tagPairs ρ))),
-    ("fparam", ρ.fn.all (fparamOK P P' (tagPairs ρ))),
-    ("bparam", ρ.builtin.all (bparamOK P P' (tagPairs ρ))),
+    ("compat", ρ.fn.all (compatFnOK ρ P P' (presentPairs ρ P))),
+    ("fparam", ρ.fn.all (fparamOK P P' (presentPairs ρ P))),
+    ("bparam", ρ.builtin.all (bparamOK P P' (presentPairs ρ P))),
     ("canon", canonOK ρ P P') ]
 
 def validateB (ρ : Ren) (P P' : Prog) (e e' : Nat) : Bool := (checks ρ P P' e e').all (·.2)
@@ -538,12 +585,81 @@ def checkRenaming (P P' : Prog) (e e' : Nat) : Option Ren :=
   | .ok ρ => if validateB ρ P P' e e' then some ρ else none
   | .error _ => none
 
+/-! Diagnostics (driver output only; nothing is proved about them). -/
+
+def findSome' {α β : Type} (f : α → Option β) : List α → Option β
+  | [] => none
+  | a :: as => match f a with
+    | some b => some b
+    | none => findSome' f as
+
+def explainCompat (ρ : Ren) (P P' : Prog) : Option String :=
+  let tags := presentPairs ρ P
+  findSome' (fun (p : Nat × Nat) =>
+    match P.fns[p.1]? with
+    | none => none
+    | some F =>
+      findSome' (fun t =>
+        match ρ.type.get t with
+        | none => none
+        | some t' =>
+          findSome' (fun (cc : Tag × Tag) =>
+            if P.isCompat t cc.1 == P'.isCompat t' cc.2 then none
+            else some s!"function {p.1}/{p.2} IsType {t}/{t'} tag {repr cc.1}/{repr cc.2}: {P.isCompat t cc.1} vs {P'.isCompat t' cc.2}") tags)
+        (isTypeOps F.instrs)) ρ.fn
+
+def explainFparam (ρ : Ren) (P P' : Prog) : Option String :=
+  let tags := presentPairs ρ P
+  findSome' (fun (p : Nat × Nat) =>
+    findSome' (fun (cc : Tag × Tag) =>
+      if P.msgCompatFn p.1 cc.1 == P'.msgCompatFn p.2 cc.2 then none
+      else some s!"function {p.1}/{p.2} tag {repr cc.1}/{repr cc.2}: {P.msgCompatFn p.1 cc.1} vs {P'.msgCompatFn p.2 cc.2}") tags) ρ.fn
+
+def explainBparam (ρ : Ren) (P P' : Prog) : Option String :=
+  let tags := presentPairs ρ P
+  findSome' (fun (p : Nat × Nat) =>
+    findSome' (fun (cc : Tag × Tag) =>
+      if P.msgCompatBuiltin p.1 cc.1 == P'.msgCompatBuiltin p.2 cc.2 then none
+      else some s!"builtin {p.1}/{p.2} tag {repr cc.1}/{repr cc.2}: {P.msgCompatBuiltin p.1 cc.1} vs {P'.msgCompatBuiltin p.2 cc.2}") tags) ρ.builtin
+
+/-- How many (IsType operand, tag) pairs disagree on tags *without* an entry in `P` (exempt from
+    `IsRenaming.compat`; reported in the evidence so the reader sees how often the exemption is used). -/
+def exemptCount (ρ : Ren) (P P' : Prog) : Nat :=
+  let tags := (tagPairs ρ).filter (fun cc => !P.tagPresent cc.1)
+  ρ.fn.foldl (fun n p =>
+    match P.fns[p.1]? with
+    | none => n
+    | some F =>
+      (isTypeOps F.instrs).foldl (fun n t =>
+        match ρ.type.get t with
+        | none => n
+        | some t' => n + (tags.filter (fun cc => P.isCompat t cc.1 != P'.isCompat t' cc.2)).length) n) 0
+
+def explainPairs (what : String) (m : AMap) (ok : Nat × Nat → Bool) : Option String :=
+  (m.find? (fun p => !ok p)).map (fun p => s!"{what} {p.1}/{p.2}")
+
+def explain (ρ : Ren) (P P' : Prog) (e e' : Nat) : String :=
+  match firstFailing (checks ρ P P' e e') with
+  | none => "?"
+  | some name =>
+    let detail : Option String :=
+      if name == "compat" then explainCompat ρ P P'
+      else if name == "fparam" then explainFparam ρ P P'
+      else if name == "bparam" then explainBparam ρ P P'
+      else if name == "fns" then explainPairs "function" ρ.fn (fnOK ρ P P')
+      else if name == "consts" then explainPairs "constant" ρ.const (constOK P P')
+      else if name == "tuples" then explainPairs "tuple" ρ.tuple (tupleOK ρ P P')
+      else if name == "builtins" then explainPairs "builtin" ρ.builtin (builtinOK ρ P P')
+      else if name == "types" then explainPairs "type" ρ.type (typeOK ρ P P')
+      else none
+    s!"{name} {detail.getD ""}"
+
 /-- Same, with the reason for a rejection (driver output). -/
 def checkRenamingExplain (P P' : Prog) (e e' : Nat) : Except String Ren :=
   match recover P P' e e' with
   | .ok ρ =>
     if validateB ρ P P' e e' then .ok ρ
-    else .error s!"validate {(firstFailing (checks ρ P P' e e')).getD "?"}"
+    else .error s!"validate {explain ρ P P' e e'}"
   | .error msg => .error s!"recover {msg}"
 
 end QM.Packaging
